@@ -106,16 +106,22 @@ func runC14(c *core.Ctx) {
 		for i := uint32(0); i < 1<<12; i++ {
 			w := uint32(cs.Idx)<<12 | i
 			b[17], b[18], b[19] = byte(w>>16), byte(w>>8), byte(w)
+			// the receiver is a used one: it holds a bitrate and sources that are not on the wire
+			p.SenderSSRC, p.Bitrate, p.SSRCs = 0xDEADBEEF, math.Float32frombits(0x4B2D2D2D), append(p.SSRCs[:0], 0xA5A5A5A5, 0x5A5A5A5A)
 			if err := p.Unmarshal(b); err != nil {
 				cs.Fail("decode/rejected", core.W{"input_hex": mon.Hex(b, 20), "error": err.Error()})
 				return
 			}
 			e, m := uint8(w>>18), w&0x3FFFF
 			want := ref.REMBDecodeBits(e, m)
+			if len(p.SSRCs) != 0 || p.SenderSSRC != 1 {
+				cs.Fail("decode/receiver-state-survives", core.W{"input_hex": mon.Hex(b, 20), "decoded_into_used_receiver": vdump(p), "receiver_before": "SenderSSRC 0xDEADBEEF, Bitrate 11349293, SSRCs [a5a5a5a5 5a5a5a5a]"})
+				return
+			}
 			if got := math.Float32bits(p.Bitrate); got != want {
 				det := core.W{"input_hex": mon.Hex(b, 20), "exp": e, "mantissa": m, "got": vdump(p.Bitrate), "expected_bits": fmt.Sprintf("%#x", want), "expected": math.Float32frombits(want)}
-				if m == 0 {
-					cs.Fail("decode/value", det, "KF3")
+				if m == 0 && got == (uint32(e)+23+127)<<23 {
+					cs.Fail("decode/value", det, "KF3") // the known symptom exactly: 2^(exp+23)
 				} else {
 					cs.Fail("decode/value", det)
 					return
@@ -243,8 +249,8 @@ func runC14(c *core.Ctx) {
 		want := ref.REMBDecodeBits(e, m)
 		y, xf := float64(d.Bitrate), float64(x)
 		var kfs []string
-		if m == 0 {
-			kfs = append(kfs, "KF3")
+		if m == 0 && math.Float32bits(d.Bitrate) == (uint32(e)+23+127)<<23 {
+			kfs = append(kfs, "KF3") // the known symptom exactly: 2^(exp+23)
 		}
 		representable := float64(math.Float32frombits(want)) == xf
 		ok := math.Float32bits(d.Bitrate) == want && y <= xf && (y == xf) == representable
